@@ -95,6 +95,7 @@ GReUpload(r, b, t, mode) ==
 \* completes, then the second one proceeds: it must fail and leave the first one's bundle alone
 GUploadRace(r, t, t2) ==
   /\ WithCrash /\ Len(bun) < MaxBundles
+  /\ DOMAIN Uploadable(t2) # {}     \* the loser is stopped at its first file-list write: it must have one
   /\ Upload(r, t, 0)
   /\ Log([op |-> "uploadrace", repo |-> r, tree |-> TreeArg(t), loser |-> TreeArg(t2), bulk |-> 0, id |-> Len(bun) + 1])
 
